@@ -711,7 +711,11 @@ theorem inv_settle (cfg : Cfg) (n : Nat) (s : St) (h : Inv s) : Inv (settle cfg 
   | succ n ih =>
     unfold settle
     simp only []
-    have h' := inv_flushQueued cfg 8 _ (inv_resumeR cfg s h)
+    have hd : Inv (applyDeferred s) := by
+      unfold applyDeferred; split
+      · exact Inv.of_core rfl h
+      · exact h
+    have h' := inv_flushQueued cfg 8 _ (inv_resumeR cfg _ hd)
     split
     · exact ih _ h'
     · exact h'
